@@ -168,9 +168,71 @@ def gen_cases(rng, tier):
             if b > n:
                 continue
             seq2 = mutate_inside(rng, seq, a, b)
+            pat = dict(desc[1]).get("pattern")
+            if isinstance(pat, str) and set(pat) <= set("ACGT") and rng.random() < 0.4:
+                # the edit writes (part of) the pattern, on either strand, at an offset reaching into the window
+                w = pat if rng.random() < 0.5 else specs.rcs(pat)
+                if len(w) <= n:
+                    i = rng.randint(max(0, a - len(w) + 1), max(max(0, a - len(w) + 1), min(n - len(w), b - 1)))
+                    lo, hi = max(i, a), min(i + len(w), b)
+                    if lo < hi:
+                        s2 = seq[:lo] + w[lo - i:hi - i] + seq[hi:]
+                        if s2 != seq:
+                            seq2 = s2
             rh = rng.random() < 0.9
             cases.append(("local", desc, role, seq, (a, b, rng.choice([0, 0, 0, 1, -1])), rh, seq2))
     return cases, {}
+
+
+def neighbours(case, rng, k=220):
+    """cases close to one on which model and implementation disagree: same specification and window (all
+    three window strands), other edits confined to the window - random ones, and for pattern classes the
+    pattern or its reverse complement written at every offset reaching into the window, starting from the
+    sequence itself and from a copy cleared of the pattern"""
+    _, desc, role, seq, win, rh, _ = case
+    a, b = win[0], win[1]
+    n = len(seq)
+    out = []
+    kwd = dict(desc[1])
+    pat = kwd.get("pattern")
+    if isinstance(pat, str) and "location" in kwd and not case[-1] == "variant":
+        # the same search around variants of the specification: every strand of its location, and plain
+        # (non palindromic) words next to the pattern it was generated with
+        loc = kwd["location"] or (0, n, 0)
+        for st in (1, -1, 0):
+            for p2 in {pat, "GGTCTC"[:max(2, min(6, b - a + 1))], "ACG", "CA"}:
+                d2 = (desc[0], tuple(sorted(dict(kwd, location=(loc[0], loc[1], st), pattern=p2).items())))
+                if d2 != desc:
+                    try:
+                        init_spec(d2, seq, role)
+                    except Exception:  # noqa
+                        continue
+                    out += neighbours(("local", d2, role, seq, win, rh, "variant"), rng, k=40)
+    words = []
+    if isinstance(pat, str) and pat and set(pat) <= set("ACGT"):
+        words = [pat, specs.rcs(pat)]
+    starts = [seq]
+    for w in words:
+        cleared = seq
+        for _ in range(4):
+            i = cleared.find(w)
+            if i < 0:
+                break
+            cleared = cleared[:i] + ("A" if w[0] != "A" else "C") + cleared[i + 1:]
+        if cleared != seq:
+            starts.append(cleared)
+    for s0 in starts:
+        for st in (0, 1, -1):
+            for w in words:
+                for i in range(max(0, a - len(w) + 1), min(n - len(w), b - 1) + 1):
+                    lo, hi = max(i, a), min(i + len(w), b)
+                    s2 = s0[:lo] + w[lo - i:hi - i] + s0[hi:]
+                    if s2 != s0:
+                        out.append(("local", desc, role, s0, (a, b, st), rh, s2))
+    while len(out) < k:
+        s0 = rng.choice(starts)
+        out.append(("local", desc, role, s0, (a, b, rng.choice([0, 1, -1])), rh, mutate_inside(rng, s0, a, b, k=rng.choice([1, 2, 3, 4]))))
+    return out[:8 * k]
 
 
 def nontrivial(case, out):
